@@ -409,6 +409,18 @@ func valueSources(p *Prog, caller *ssa.Function, v ssa.Value, depth int, seen ma
 		if fa, ok := x.X.(*ssa.FieldAddr); ok {
 			return []string{"field " + fieldName(fa.X.Type(), fa.Field)}
 		}
+		// the spill slot of a value that a function literal captures (assigned once)
+		if al, ok := x.X.(*ssa.Alloc); ok {
+			if sv := capturedSingleStore(al); sv != nil {
+				return valueSources(p, caller, sv, depth+1, seen)
+			}
+		}
+		// a variable of the enclosing function captured by a function literal and assigned once there
+		if fv, ok := x.X.(*ssa.FreeVar); ok {
+			if cv := capturedValue(x); cv != ssa.Value(x) && fv.Parent().Parent() != nil {
+				return valueSources(p, fv.Parent().Parent(), cv, depth+1, seen)
+			}
+		}
 	case *ssa.Phi:
 		var out []string
 		for _, e := range x.Edges {
